@@ -394,4 +394,11 @@ def main():
 
 
 if __name__ == '__main__':
-    main()
+    try:
+        main()
+    except SystemExit:
+        raise
+    except BaseException:   # a crash of the machinery is never a verdict about the property
+        traceback.print_exc()
+        print('INFRASTRUCTURE-FAILURE: unexpected exception in the check machinery (see traceback above)')
+        sys.exit(2)
